@@ -1,5 +1,6 @@
 // bx kernels harness: BOUNDED check of the per-sample kernels under contract in unit `kernels` (never counted as proof),
-// driven through their real blocks and streams: NrziDecode, CorrelateAccessCode, CorrelateAccessCodeTag, BurstTagger.
+// driven through their real blocks and streams: NrziDecode, CorrelateAccessCode, CorrelateAccessCodeTag, BurstTagger, and the
+// G3RUH Descrambler through both of its constructors.
 // It is the stand-in / second opinion of that unit: output samples and tags of a drip-fed run are compared with a
 // per-sample reference written from the documentation (the same rules the Verus contracts state).
 use rustradio::block::{Block, BlockRet};
@@ -91,6 +92,35 @@ fn run_nrzi(seed: u64) -> Result<(), Fail> {
         last = *a;
         if got.get(i) != Some(&want) {
             return Err(Fail { prop: "C10", label: "C10.nrzi.xor-with-previous".into(), what: format!("output bit {i} is {:?}, 1 ^ {a} ^ previous gives {want}", got.get(i)), seed });
+        }
+    }
+    Ok(())
+}
+
+/// G3RUH descrambler (the documented polynomial 1 + x^12 + x^17): out[t] = in[t] ^ in[t-12] ^ in[t-17], history zero.
+fn run_g3ruh(seed: u64) -> Result<(), Fail> {
+    let mut rng = Rng(seed * 9973 + 7);
+    let n = 300 + rng.below(400);
+    let data: Vec<u8> = (0..n).map(|_| rng.below(2) as u8).collect();
+    let mut outs: Vec<Vec<u8>> = vec![];
+    for ctor in 0..2 {
+        let (w, r) = new_stream::<u8>();
+        let (mut b, out) = if ctor == 0 { Descrambler::new_g3ruh(r) } else { Descrambler::new(r, 0x21, 0, 16) };
+        let (mut got, mut gt, mut pos) = (vec![], vec![], 0);
+        while pos < n {
+            feed(&w, &data, &mut pos, 1 + rng.below(60), &[]);
+            work(&mut b, seed, "descrambler")?;
+            drain(&out, &mut got, &mut gt);
+        }
+        outs.push(got);
+    }
+    for t in 0..n {
+        let want = data[t] ^ (if t >= 12 { data[t - 12] } else { 0 }) ^ (if t >= 17 { data[t - 17] } else { 0 });
+        for (k, name) in [(0usize, "new_g3ruh()"), (1, "new(0x21, 0, 16)")] {
+            if outs[k].get(t) != Some(&want) {
+                return Err(Fail { prop: "C10", label: "C10.descrambler.g3ruh-is-in-xor-in12-xor-in17".into(),
+                    what: format!("Descrambler::{name}: output bit {t} is {:?}, in[t] ^ in[t-12] ^ in[t-17] gives {want}", outs[k].get(t)), seed });
+            }
         }
     }
     Ok(())
@@ -228,7 +258,7 @@ fn bx_kernels() {
     let mut runs = 0;
     for i in 0..n {
         let seed = base * 1000 + i;
-        for r in [run_nrzi(seed), run_correlate(seed), run_burst(seed)] {
+        for r in [run_nrzi(seed), run_correlate(seed), run_burst(seed), run_g3ruh(seed)] {
             runs += 1;
             if let Err(f) = r {
                 println!("BXFAIL {{\"target\":\"kernels\",\"property\":\"{}\",\"label\":\"{}\",\"what\":\"{}\",\"seed\":{}}}", f.prop, f.label, f.what.replace('"', "'").replace('\\', ""), f.seed);
